@@ -708,20 +708,38 @@ func capPair(c *mon.Case) {
 	for _, p := range probes {
 		a, b := capIn(A, p), capIn(B, p)
 		out := func(x s2.Cap) bool { return !capIn(x, p) && outsideBy(x, p) > capSlack }
-		if (a || b) && out(U) {
-			c.Violation("cap/Union/loses-point/"+mon.Severity(outsideBy(U, p)), "Union does not contain a point of an operand: "+gen.Hex(p), desc())
+		// a point of an operand that the result misses: measured in 320-bit arithmetic; misses of at most
+		// capSlack (1e-14 in squared chord length, the rounding of the construction itself) are classed
+		// "representation-level", anything larger by its size
+		lose := func(name string, x s2.Cap, what string) {
+			if capIn(x, p) {
+				return
+			}
+			ob := outsideBy(x, p)
+			if ob <= 0 {
+				return // inside in exact arithmetic: only the membership test rounded
+			}
+			class := mon.Severity(ob)
+			if ob <= capSlack {
+				class = "representation-level"
+			}
+			c.Max("cap."+name+".max_miss_chord2."+class, ob)
+			c.Violation("cap/"+name+"/loses-point/"+class, fmt.Sprintf("%s: %s (outside by %.3g in squared chord length)", what, gen.Hex(p), ob), desc())
 		}
-		if (a || b) && !A.IsEmpty() && out(AC) {
-			c.Violation("cap/AddCap/loses-point/"+mon.Severity(outsideBy(AC, p)), "AddCap does not contain a point of an operand: "+gen.Hex(p), desc())
+		if a || b {
+			lose("Union", U, "Union does not contain a point of an operand")
+			if !A.IsEmpty() {
+				lose("AddCap", AC, "AddCap does not contain a point of an operand")
+			}
 		}
-		if a && out(E) && !E.IsEmpty() {
-			c.Violation("cap/Expanded/loses-point/"+mon.Severity(outsideBy(E, p)), "Expanded(d>=0) lost "+gen.Hex(p), desc())
+		if a && !E.IsEmpty() {
+			lose("Expanded", E, "Expanded(d>=0) lost a point")
 		}
 		if a && E.IsEmpty() {
 			c.Violation("cap/Expanded/loses-point/gross", "Expanded(d>=0) of a non-empty cap is empty", desc())
 		}
-		if a && out(AP) {
-			c.Violation("cap/AddPoint/loses-point/"+mon.Severity(outsideBy(AP, p)), "AddPoint lost "+gen.Hex(p), desc())
+		if a {
+			lose("AddPoint", AP, "AddPoint lost a point")
 		}
 		if !a && !capIn(comp, p) && (comp.IsEmpty() || outsideBy(comp, p) > capSlack) && outsideBy(A, p) > capSlack {
 			c.Violation("cap/Complement/does-not-cover/wrong-answer", "point in neither A nor Complement(A): "+gen.Hex(p), desc())
